@@ -48,3 +48,12 @@ Definition bLabels := ObLabels Z Z.
 Definition bFlags := ObFlags Z Z.
 Definition bUnit := ObUnit Z Z.
 Definition bErr := ObErr Z Z.
+
+(* a Bus built by the public constructor Bus(series, store=, max_persist=) from a Series that already holds some Frames:
+   __init__ refuses it when more Frames are loaded than max_persist allows; otherwise the Frames held count as used in
+   index order *)
+Definition z_s_run_init (content : list (Z * (Z * Z))) (t0 : Z) (labels : list Z) (held : list bool) (mp : option Z)
+  (tbl : list (Z * Z)) (ops : list (op Z)) : list (obs Z Z * list bool) :=
+  let cache := map fst (filter snd (combine labels held)) in
+  if (match mp with Some k => k <? Z.of_nat (length cache) | None => false end) then [(ObErr Z Z "ErrorInitBus", [])]
+  else (ObUnit Z Z, held) :: s_run Z Z Z.eqb Z.leb (zkey_tbl tbl) (z_store content t0) (mk_sbus Z labels cache mp) ops.
